@@ -1,5 +1,5 @@
 (* C13 — Key IDs are the spec's hash of the key's PASERK text, stable, domain-separated. *)
-From PV Require Import Bytes Result Base64 Text TextProofs Oracle Keys KeysProofs.
+From PV Require Import Bytes Result Base64 Text TextProofs Oracle Keys KeysProofs ToyOracle.
 Local Open Scope list_scope.
 
 (* the id is, by definition of the model (mirroring KeyId::from and IdVersion::hash_key), the 33-byte digest
@@ -62,3 +62,12 @@ Print Assumptions C13_id_text_33.
 Print Assumptions C13_id_stable.
 Print Assumptions C13_domain_separated.
 Print Assumptions C13_equal_ids_are_collisions.
+
+(* non-vacuity: the premises of the theorems above ([laws O] and the four point-encoder facts) have a model *)
+Theorem C13_premises_satisfiable : exists O, laws O /\
+  (forall sd, ed_pk_weak (ed_pk O sd) = false) /\
+  (forall sd, na_point_valid (ed_pk O sd) = true) /\
+  (forall bs pk, p384_parse O bs = Some pk -> compressed_tag pk = true) /\
+  (forall sk pk, p384_pk O sk = Some pk -> compressed_tag pk = true).
+Proof. exists toy. split; [exact toy_laws | exact toy_key_premises]. Qed.
+Print Assumptions C13_premises_satisfiable.
